@@ -588,7 +588,10 @@ pub fn scenario(rng: &mut Rng) -> String {
     let blk = *rng.pick(&["div", "p", "li", "blockquote", "address", "h1", "td", "button", "marquee", "object", "applet", "center", "dd"]);
     let k = rng.range(1, 10);
     let rep = |s: &str, n: usize| s.repeat(n);
-    match rng.below(40) {
+    match rng.below(43) {
+        40 => format!("<{blk}><template shadowrootmode=open><p>x<{fmt}>y</template>z</{blk}><template shadowrootmode=closed>w"),
+        41 => format!("<head><template shadowrootmode=open>a</template></head><body><template shadowrootmode=\"open\" shadowrootdelegatesfocus><{fmt}>b</template>c"),
+        42 => format!("<template shadowrootmode=open><template shadowrootmode=open>x</template>y</template><table><template shadowrootmode=closed><tr><td>z"),
         0 => format!("<{fmt}>{}x</{fmt}>y", rep(&format!("<{blk}>"), k)),
         1 => format!("<{fmt}>{}<{blk}>x</{fmt}>y", rep(&format!("<{fmt2}>"), k)),
         2 => format!("{}<{blk}>x</{fmt}>y", rep(&format!("<{fmt} a={}>", 1), k)),
@@ -766,8 +769,8 @@ pub fn xml_node(rng: &mut Rng, out: &mut String, depth: usize, budget: &mut usiz
         4 => push_pick(rng, out, &["<!-- c -->", "<!---->", "<!--a--b-->", "<!--\r\n-->", "<!--\0-->", "<!-- x", "<!-->"]),
         5 => push_pick(rng, out, &["<?pi data?>", "<?pi?>", "<?pi \r\n d?>", "<?xml version=\"1.0\"?>", "<?p\0i x?>", "<? x?>", "<?pi d"]),
         6 => push_pick(rng, out, &["<![CDATA[x]]>", "<![CDATA[]]>", "<![CDATA[a\rb]]>", "<![CDATA[\0]]>", "<![CDATA[]]]]>", "<![CDATA[x"]),
-        7 => push_pick(rng, out, &["</>", "</a>", "</p:a>", "</ a>", "</b >", "<>", "< a>"]),
-        8 => push_pick(rng, out, &["<!DOCTYPE a>", "<!DOCTYPE a PUBLIC \"p\" \"s\">", "<!DOCTYPE a SYSTEM 's'>", "<!DOCTYPE a [ <!ENTITY x \"y\"> ]>", "<!DOCTYPE\ra\rPUBLIC\r'p\rq'>", "<!DOCTYPE", "<!DOCTYPE a PUBLIC 'x"]),
+        7 => push_pick(rng, out, &["</>", "</a>", "</p:a>", "</ a>", "</b >", "<>", "< a>", "</a b='1'>", "</a b=c d>", "</ x='y'>", "</a/>", "</a xmlns='u'>"]),
+        8 => push_pick(rng, out, &["<!DOCTYPE a>", "<!DOCTYPE a PUBLIC \"p\" \"s\">", "<!DOCTYPE a SYSTEM 's'>", "<!DOCTYPE a [ <!ENTITY x \"y\"> ]>", "<!DOCTYPE\ra\rPUBLIC\r'p\rq'>", "<!DOCTYPE", "<!DOCTYPE a PUBLIC 'x", "<!DOCTYPE a PUBLIC 'p'\"s\">", "<!DOCTYPE a PUBLIC \"p\"'s'>", "<!DOCTYPE a PUBLIC \"p\">", "<!DOCTYPE a PUBLIC 'p' >", "<!DOCTYPE a SYSTEM\"s\">", "<!DOCTYPE a PUBLIC\"p\" x>", "<!DOCTYPE a SYSTEM 's' x>", "<!DOCTYPE a x>", "<!DOCTYPE a PUBLIC>", "<!doctype a public 'P' system>", "<!X>", "<!"]),
         _ => {
             let n = *rng.pick(XML_NAMES);
             out.push('<');
